@@ -306,8 +306,8 @@ func buildFile(f *ir.File, name string, dep bool) *descpb.FileDescriptorProto {
 	}
 	if f.GoPackage != "" {
 		fd.Options.GoPackage = proto.String(f.GoPackage)
-		if dep && f.DepGoPackage != "" {
-			fd.Options.GoPackage = proto.String(f.DepGoPackage)
+		if alt := f.AltGoPackage(); dep && f.DepAltSpelling && alt != "" {
+			fd.Options.GoPackage = proto.String(alt)
 		}
 	}
 	mustSet := func(ext *proto.ExtensionDesc, v bool) {
